@@ -90,6 +90,15 @@ pub fn specs() -> Vec<PropertySpec> {
             stubbed_components: vec!["bundler host (e1)"],
         },
         PropertySpec {
+            id: "C14",
+            level: "exploration",
+            plans: vec![Plan { engine: "e2", variant: "c14", quick: 1_500, thorough: 100_000, asan: false }],
+            rule: "seeded projects with options drawn from the product of the export/name options and the three generate modes; the CLI writes the declaration files, the loader is given the same config text and all operation files of the project as concurrent module builds under a seeded schedule; for every operation file the value exports and the default export are compared. distinct = hash of project shape and config text; every case interleaves >= 1 module with config loading, non-trivial = two hash seeds in play",
+            assumptions: vec!["tolerant scanner for `export const`, `declare const`, `export { X as default }` (e2.rs scan_exports)", "one nitrogql config per loader instance (documented deployment)"],
+            real_components: vec!["nitrogql-cli binary", "loader ABI"],
+            stubbed_components: vec!["bundler host"],
+        },
+        PropertySpec {
             id: "C13",
             level: "exploration",
             plans: vec![
